@@ -147,6 +147,31 @@ def field_minima(fields, types):
     return out, cur
 
 
+def layout_ok(s):
+    """every explicit offset / blockLength of `s` respects its minimum (used to
+    discard edits that change a size and thereby break a second rule)"""
+    types = s['types']
+    try:
+        for _, _, e, _ in walk_elems(s):
+            if e['k'] == 'composite':
+                mins, _ = member_minima(e['elems'], types)
+                for i, lo in mins:
+                    o = e['elems'][i].get('offset')
+                    if o is not None and o < lo:
+                        return False
+        for _, _, l, _ in walk_levels(s):
+            mins, end = field_minima(l.get('fields', []), types)
+            for i, lo in mins:
+                o = l['fields'][i].get('offset')
+                if o is not None and o < lo:
+                    return False
+            if l.get('blockLength') is not None and l['blockLength'] < end:
+                return False
+    except (KeyError, TypeError, AttributeError, RecursionError):
+        return True     # sizes undefined (broken reference): not a layout question
+    return True
+
+
 # ------------------------------------------------------------------ rendering
 
 ATOM = re.compile(r'^[A-Za-z0-9_.\-+]+$')
@@ -392,7 +417,8 @@ def boundary_literals(prim):
                 ('-INF', '-INF'), ('+INF', '+INF'), ('1.', 'trailing point'), ('.5', 'leading point'),
                 ('1E+5', 'exponent'), ('-0', 'minus zero'), ('+1.5', 'plus sign'), ('16777217', 'inexact integer'),
                 ('0e99999999999999999999', 'zero with a huge exponent'),
-                ('1.401298464324817070923729583289916131280e-45', 'exact smallest subnormal'),
+                ('1.40129846432481707092372958328991613128026194187651577175706828388979108268586060148663818836212158203125e-45',
+                 'exact smallest subnormal'),
                 ('1.1754942106924411e-38', 'rounds up to FLT_MIN')]
     if prim == 'double':
         return [('1.7976931348623157e308', 'DBL_MAX'), ('1.797693134862315807e308', 'just below the rounding threshold'),
@@ -1099,7 +1125,16 @@ def m_parser(s):
 
 
 def mutants(s, rng):
-    """every single-rule edit of `s` at every applicable position"""
+    """every single-rule edit of `s` at every applicable position; edits whose
+    only purpose is another rule but which change a size and thereby push a
+    later explicit offset / blockLength below its minimum are dropped"""
+    for m in _mutants(s, rng):
+        if m.rule not in ('offset', 'blockLength') and m.cls not in ('cyclicReference',) and not layout_ok(m.schema):
+            continue
+        yield m
+
+
+def _mutants(s, rng):
     yield from m_offsets(s)
     yield from m_block_length(s)
     yield from m_values(s, rng)
